@@ -165,6 +165,25 @@ Proof.
   rewrite E. apply IH. intros x Hx. apply H. right. exact Hx.
 Qed.
 
+Lemma add_new_length_le : forall xs set, (length set <= length (add_new xs set))%nat.
+Proof.
+  induction xs as [|a xs IH]; intros set; [apply le_n|].
+  rewrite add_new_cons. destruct (memN a set) eqn:E; [apply IH|].
+  pose proof (IH (set ++ [a])) as Hle. rewrite app_length in Hle. cbn [length] in Hle. lia.
+Qed.
+
+(* a round that does not lengthen the set added nothing *)
+Lemma add_new_length_eq : forall xs set,
+  length (add_new xs set) = length set -> forall x, In x xs -> In x set.
+Proof.
+  induction xs as [|a xs IH]; intros set Hlen x Hx; [destruct Hx|].
+  rewrite add_new_cons in Hlen. destruct (memN a set) eqn:E.
+  - destruct Hx as [Hx|Hx]; [subst x; apply memN_In; exact E|].
+    apply IH; assumption.
+  - pose proof (add_new_length_le xs (set ++ [a])) as Hle.
+    rewrite app_length in Hle. cbn [length] in Hle. lia.
+Qed.
+
 (* ------------------------------------------------------------------ *)
 (* the universe: reachability and the specification of [closure]        *)
 (* ------------------------------------------------------------------ *)
@@ -214,20 +233,28 @@ Section Universe.
     forall a b, In a set -> In b (mentions ru a) -> In b set.
 
   Lemma closure_S : forall k set,
-    closure (S k) ru set = closure k ru (add_new (flat_map (mentions ru) set) set).
+    closure (S k) ru set =
+    if Nat.eqb (length (add_new (flat_map (mentions ru) set) set)) (length set)
+    then set else closure k ru (add_new (flat_map (mentions ru) set) set).
   Proof. reflexivity. Qed.
 
   Lemma closure_incl : forall k set x, In x set -> In x (closure k ru set).
   Proof.
     induction k as [|k IH]; intros set x H; [exact H|].
-    rewrite closure_S. apply IH. apply add_new_In. left. exact H.
+    rewrite closure_S.
+    destruct (Nat.eqb (length (add_new (flat_map (mentions ru) set) set)) (length set));
+      [exact H|].
+    apply IH. apply add_new_In. left. exact H.
   Qed.
 
   Lemma closure_sound : forall s k set,
     (forall x, In x set -> reach s x) -> forall x, In x (closure k ru set) -> reach s x.
   Proof.
     intros s. induction k as [|k IH]; intros set H x Hx; [apply H; exact Hx|].
-    rewrite closure_S in Hx. revert x Hx. apply IH. intros x Hx.
+    rewrite closure_S in Hx.
+    destruct (Nat.eqb (length (add_new (flat_map (mentions ru) set) set)) (length set));
+      [apply H; exact Hx|].
+    revert x Hx. apply IH. intros x Hx.
     apply add_new_In in Hx. destruct Hx as [Hx|Hx]; [apply H; exact Hx|].
     apply in_flat_map in Hx. destruct Hx as [a [Ha Hxa]].
     apply reach_snoc with a; [apply H; exact Ha | exact Hxa].
@@ -240,7 +267,7 @@ Section Universe.
     assert (E : add_new (flat_map (mentions ru) set) set = set).
     { apply add_new_id. intros x Hx. apply in_flat_map in Hx. destruct Hx as [a [Ha Hxa]].
       exact (H a x Ha Hxa). }
-    rewrite E. apply IH. exact H.
+    rewrite E. rewrite PeanoNat.Nat.eqb_refl. reflexivity.
   Qed.
 
   Lemma closed_reach : forall set a b, closed set -> reach a b -> In a set -> In b set.
@@ -272,6 +299,10 @@ Section Universe.
     - pose proof (rcount_le set Hnd). lia.
     - rewrite closure_S.
       set (set' := add_new (flat_map (mentions ru) set) set).
+      destruct (Nat.eqb (length set') (length set)) eqn:Elen.
+      { (* the early exit: nothing was added, the set is closed *)
+        apply PeanoNat.Nat.eqb_eq in Elen. intros a b Ha Hb.
+        apply (add_new_length_eq _ _ Elen). apply in_flat_map. exists a. split; assumption. }
       assert (Hnd' : NoDup set') by (apply add_new_NoDup; exact Hnd).
       destruct (existsb (fun x => resolves gu x && negb (memN x set)) set') eqn:E.
       + apply existsb_exists in E. destruct E as [x [Hx Hp]].
